@@ -171,7 +171,7 @@ func optAmount(op J, k string, flag string) (int64, bool) {
 func (w *World) newPool(op J) error {
 	pw := &PoolWorld{w: w, conns: map[string]*Conn{}, paid: map[string]*big.Int{}}
 	pw.dep = &depositStore{inner: w.store, dep: map[store.Account]*big.Int{}}
-	interval := time.Duration(num(op, "interval")) * time.Second
+	interval := time.Duration(num(op, "interval")) * tick
 	mgr := balance.PayPerInterval(pw.dep, interval, w.money.real(num(op, "price")))
 	if m, ok := optAmount(op, "minbal", "hasmin"); ok {
 		mgr.MinBalance = w.money.real(m)
